@@ -65,6 +65,11 @@ func c05Check(prop string, ncpus, storeConcs, loadConcs []int) func(e *nEnv, jc 
 					for _, lc := range loadConcs {
 						n++
 						vruntime.CPUs = ncpu
+						if n%2 == 0 {
+							nitro.VerifSetRefreshRate(e.db, 1) // the backup scan refreshes its accessor token after every item
+						} else {
+							nitro.VerifSetRefreshRate(e.db, 10000)
+						}
 						liveBefore := 0
 						if e.ga != nil {
 							liveBefore, _ = e.ga.Live()
